@@ -120,6 +120,8 @@ class RedisStorage(QueueStorage):
 
     def load(self):
         for key in self.redis.keys(self.prefix+'*'):
+            if isinstance(key, bytes):
+                key = key.decode('utf-8')
             if key != self.queue_key:
                 id = key[len(self.prefix):]
                 timestamp = self.redis.hget(key, 'timestamp') or time.time()
